@@ -565,7 +565,8 @@ func K15() *Entry {
 	entry := M("LabelEntry", F("key"), F("value"))
 	pair := M("PairEntry", F("key"), F("value", MsgT("LabelEntry")))
 	any := M("Any", F("TypeUrl"), F("Payload", Sc(ir.Bytes)))
-	holder := M("Shelf", F("Title"), F("Labels", MapOf()), F("Entries", MsgT("LabelEntry"), Rep()), F("ByName", MsgT("PairEntry"), MapOf()), F("Extra", MsgT("Any")),
+	// (the maps `Label` and `Pair` have entry descriptors called like the selected messages LabelEntry / PairEntry: D13)
+	holder := M("Shelf", F("Title"), F("Labels", MapOf()), F("Label", MapOf()), F("Pair", Sc(ir.Int64), MapOf()), F("Entries", MsgT("LabelEntry"), Rep()), F("ByName", MsgT("PairEntry"), MapOf()), F("Extra", MsgT("Any")),
 		// singular message attributes named like the fields of a map entry, next to maps of the same message
 		F("value", MsgT("PairEntry")), F("key", MsgT("PairEntry"), NonNull()), F("ByKey", MsgT("PairEntry"), MapOf(), NonNull()),
 		// ... and next to a map of another message
